@@ -4,13 +4,12 @@ import gens_algos
 from props.common import TRUSTED_BASE, ASSUMPTIONS
 
 ID = "C05"
-LEAN_MODULES = ["LexVerif.Props.C05", "LexVerif.Props.RoundNE", "LexVerif.Props.TablesParse", "LexVerif.Props.Literals.ParseFloatParse", "LexVerif.Props.Literals.ParseFloatNumber", "LexVerif.Props.Literals.ParseFloatLemire", "LexVerif.Props.Literals.ParseFloatBellerophon", "LexVerif.Props.Literals.ParseFloatSlow", "LexVerif.Props.Literals.ParseFloatBigint", "LexVerif.Props.Literals.ParseFloatShared", "LexVerif.Props.Literals.ParseFloatFloat", "LexVerif.Props.Literals.ParseFloatMask", "LexVerif.Props.Literals.ParseFloatLimits", "LexVerif.Props.Literals.ParseIntegerAlgorithm", "LexVerif.Props.Literals.UtilDigit", "LexVerif.Props.Literals.UtilStep", "LexVerif.Props.Literals.ParseFloatBinary"]
+LEAN_MODULES = ["LexVerif.Props.C05", "LexVerif.Props.RoundNE", "LexVerif.Props.TablesParse", "LexVerif.Props.Literals.ParseFloatParse", "LexVerif.Props.Literals.ParseFloatNumber", "LexVerif.Props.Literals.ParseFloatLemire", "LexVerif.Props.Literals.ParseFloatBellerophon", "LexVerif.Props.Literals.ParseFloatSlow", "LexVerif.Props.Literals.ParseFloatBigint", "LexVerif.Props.Literals.ParseFloatShared", "LexVerif.Props.Literals.ParseFloatFloat", "LexVerif.Props.Literals.ParseFloatMask", "LexVerif.Props.Literals.ParseFloatLimits", "LexVerif.Props.Literals.ParseIntegerAlgorithm", "LexVerif.Props.Literals.UtilDigit", "LexVerif.Props.Literals.UtilStep", "LexVerif.Props.Literals.ParseFloatBinary", "LexVerif.Props.LiteralsModel"]
 GEN = ["parse_tables", "literals"]
 TRUSTED = TRUSTED_BASE + [
     "the big-integer slow paths (byte_comp, digit_comp) for generic radices are NOT proved in Lean; proved: the oracle, the per-radix tables, "
     "the fast path for every radix, the complete power-of-two path (binary, slow_binary) and Bellerophon for all 29 generic radices on their Lean models; "
     "the slow paths are compared with the oracle on per-radix number-theoretic worst cases",
-    "binary_correct/binary_truncated_correct carry the exclusion MarkerOk (power2 < 32768) mirroring a defect of binary(): see Props/C05.lean binary_marker_overflow",
     "IEEE assumption of the fast path: u64->float conversion, float * and / are correctly rounded",
 ]
 RULE = ("per radix 2..36: G-hard worst cases (m*r^q closest to a float midpoint, m up to u64_step digits) as plain / pointed / "
@@ -21,7 +20,7 @@ MIXED = [(4, 2), (8, 2), (16, 2), (32, 2), (16, 4)]
 
 
 TECHNIQUE = 'Lean 4 proof (oracle; per-radix tables incl. split_radix/large powers kernel-checked for all 35 radices) + correspondence on per-radix worst cases and mixed-base formats'
-LEVEL_TEXT = 'Proved in Lean: the oracle (roundNE/litBits) and, for all 35 radices, that small/large power tables, Bellerophon tables, limits, steps and split_radix regenerated from the crate equal their closed forms (this is the theorem family that exposes a wrong split_radix arm). Also proved on Lean models tied to the code by component-level correspondence (ops fp/bin/sbin): try_fast_path is exact for all 35 radices; the power-of-two path is complete: binary returns roundNE(m*base^e) whenever it decides (denormals, half-way/even, zero/infinity cut-offs; exclusion MarkerOk for the invalid-marker overflow at power2 >= 32768, with a negation witness), a valid answer for a truncated mantissa is right for every value in [M, M+1), and slow_binary (digit loops, leading zeros, sticky flag) returns roundNE of the whole literal when binary was undecided. Bellerophon is proved sound on its model for all 29 generic radices, radix and compact tables, truncated mantissas included (bellerophon_radix_sound). NOT proved: byte_comp/digit_comp (big-integer slow paths); they are compared with the oracle on per-radix worst cases, exponent cut-offs, long tails and the five mixed-base formats x three exponent radices. Partial proof, stated as such.'
+LEVEL_TEXT = 'Proved in Lean: the oracle (roundNE/litBits) and, for all 35 radices, that small/large power tables, Bellerophon tables, limits, steps and split_radix regenerated from the crate equal their closed forms (this is the theorem family that exposes a wrong split_radix arm). Also proved on Lean models tied to the code by component-level correspondence (ops fp/bin/sbin): try_fast_path is exact for all 35 radices; the power-of-two path is complete: binary returns roundNE(m*base^e) whenever it decides (denormals, half-way/even, zero/infinity cut-offs, no exclusions: the invalid-marker overflow at power2 >= 32768 was fixed in /repo 6cdda4d and binary_marker_overflow is now a positive regression example), a valid answer for a truncated mantissa is right for every value in [M, M+1), and slow_binary (digit loops, leading zeros, sticky flag) returns roundNE of the whole literal when binary was undecided. Bellerophon is proved sound on its model for all 29 generic radices, radix and compact tables, truncated mantissas included (bellerophon_radix_sound). NOT proved: byte_comp/digit_comp (big-integer slow paths); they are compared with the oracle on per-radix worst cases, exponent cut-offs, long tails and the five mixed-base formats x three exponent radices. Partial proof, stated as such.'
 LEVEL_NOTE = 'Trusted: Lean kernel; rustc; R dump+generator; differential harness; IEEE-754 correct rounding of int->float, * and / (fast path). Lean models of number.rs, binary.rs, bellerophon.rs, shared.rs rounding agree with the compiled code on component-level streams; slow.rs/bigint.rs are modelled by the oracle only.'
 
 
